@@ -5,7 +5,7 @@ CONSTANTS
   Limits <- MCLimits
   HBMode = "off"
   Table = "GPOS"
-  Shapes = {"2x2", "3x1"}
+  Shapes = {"2x1", "1x2"}
 INIT MInit
 NEXT RNext
 CONSTRAINTS Bounded NoStuckLig GenEmit Stat
